@@ -9,6 +9,7 @@
 package main
 
 import (
+	"regexp"
 	"bytes"
 	"encoding/json"
 	"fmt"
@@ -169,6 +170,16 @@ func runChild(bin, prop string, seed uint64, planFile, tier, mode string, wall t
 		return c
 	}
 	c.res = &r
+	// race-detector reports of the child become violations
+	for _, v := range raceViolations(prop, buf.String()) {
+		c.res.Violations = append(c.res.Violations, v)
+		if c.exit == 0 || c.exit == 66 {
+			c.exit = 1
+		}
+	}
+	if c.exit == 66 {
+		c.exit = 1
+	}
 	if c.exit == 2 {
 		c.err = r.Harness
 		if c.err == "" {
@@ -176,6 +187,60 @@ func runChild(bin, prop string, seed uint64, planFile, tier, mode string, wall t
 		}
 	}
 	return c
+}
+
+var raceFrameRe = regexp.MustCompile(`^  (seata\.apache\.org/seata-go/.+)\(\)\s*$`)
+
+// raceViolations parses "WARNING: DATA RACE" blocks; a report is classed by the
+// first client (seata-go) frame of each of its two stacks.
+func raceViolations(prop, out string) []Violation {
+	var vs []Violation
+	seen := map[string]bool{}
+	blocks := strings.Split(out, "WARNING: DATA RACE")
+	for _, b := range blocks[1:] {
+		if k := strings.Index(b, "=================="); k >= 0 {
+			b = b[:k]
+		}
+		var frames []string
+		cur := ""
+		for _, line := range strings.Split(b, "\n") {
+			switch {
+			case strings.HasPrefix(line, "Write at") || strings.HasPrefix(line, "Read at") || strings.HasPrefix(line, "Previous write at") || strings.HasPrefix(line, "Previous read at"):
+				if cur != "" || len(frames) > 0 {
+					frames = append(frames, cur)
+				}
+				cur = ""
+			case strings.HasPrefix(line, "Goroutine "):
+				frames = append(frames, cur)
+				cur = "-"
+			case cur == "":
+				if m := raceFrameRe.FindStringSubmatch(line); m != nil {
+					cur = m[1]
+				}
+			}
+		}
+		var fs []string
+		for _, f := range frames {
+			if f != "" && f != "-" {
+				f = strings.TrimPrefix(f, "seata.apache.org/seata-go/")
+				fs = append(fs, f)
+			}
+		}
+		if len(fs) == 0 {
+			fs = []string{"outside-the-client"}
+		}
+		if len(fs) > 2 {
+			fs = fs[:2]
+		}
+		sort.Strings(fs)
+		class := "race-" + strings.Join(fs, "-vs-")
+		if seen[class] {
+			continue
+		}
+		seen[class] = true
+		vs = append(vs, Violation{Property: prop, Clause: "no-data-race", Class: class, Detail: "race detector: " + strings.TrimSpace(tail(strings.TrimSpace(b), 3000))})
+	}
+	return vs
 }
 
 func tail(s string, n int) string {
